@@ -1,8 +1,8 @@
 (* C15 — serde round trip returns the original Rust value, also across the wire.
    Model: Serde/Serde.v — a Rust type is a `ty` (integers of every width, f32/f64, bool, char, String, unit, Option,
-   tuples, Vec, maps, named structs, derive(ElixirStruct) structs, enums with all four variant shapes, nested
-   arbitrarily), a value of it an `rval`; `rser` / `rde` are the type-directed serialiser and deserialiser that the
-   standard and derived Serialize / Deserialize impls drive.  The model follows the code after fix commit 5d4f8ca;
+   tuples, Vec, maps, named structs, unit / newtype / tuple structs, derive(ElixirStruct) structs, enums with all
+   four variant shapes, byte buffers, nested arbitrarily), a value of it an `rval`; `rser` / `rde` are the
+   type-directed serialiser and deserialiser that the standard and derived Serialize / Deserialize impls drive.  The model follows the code after fix commit 5d4f8ca;
    the correspondence run compares it with erltf_serde on every check, for the harness's family of Rust types. *)
 From Coq Require Import String.
 From EDP Require Import Base.Bytes Term.Term Term.Access Order.Cmp Codec.Norm Elixir.Wrap Serde.Serde Serde.SerdeFacts.
@@ -51,6 +51,18 @@ Definition ex_val : rval :=
 Example C15_example : forall interop,
   rwt interop (fun b => b) ex_ty ex_val = true /\ canon interop ex_ty ex_val /\
   rde interop (fun b => b) ex_ty (norm (rser interop ex_ty ex_val)) = Some ex_val.
+Proof. intros []; (split; [vm_compute; reflexivity|split; [vm_compute; auto 20|vm_compute; reflexivity]]). Qed.
+
+(* the other struct kinds and a byte buffer, nested: struct Marker; struct Meters(i64); struct Pair(i32, String) *)
+Definition ex_ty2 : ty :=
+  TyTuple [TyUnitStruct (str "Marker"); TyNewtype (TyInt I64); TyTupleStruct [TyInt I32; TyString];
+           TyOption (TyNewtype (TyVec (TyUnitStruct (str "Marker")))); TyBytes; TyVec (TyNewtype (TyNewtype TyChar))].
+Definition ex_val2 : rval :=
+  RTup [RUnit; RTup [RInt (-1099511627776)]; RTup [RInt 7; RStr (str "x")]; RSome (RTup [RSeq [RUnit; RUnit]]); RStr [255; 0];
+        RSeq [RTup [RTup [RChar [240; 159; 152; 128]]]]].
+Example C15_example_struct_kinds : forall interop,
+  rwt interop (fun b => b) ex_ty2 ex_val2 = true /\ canon interop ex_ty2 ex_val2 /\
+  rde interop (fun b => b) ex_ty2 (norm (rser interop ex_ty2 ex_val2)) = Some ex_val2.
 Proof. intros []; (split; [vm_compute; reflexivity|split; [vm_compute; auto 20|vm_compute; reflexivity]]). Qed.
 
 Check C15_roundtrip.
